@@ -580,6 +580,26 @@ pub fn run(opts: &Opts, out: &mut Emitter, c04: bool) {
             }
         }
     }
+    // names the source itself mentions: two ordinary blocks after the same plain UTxOs of one party, one of them under
+    // a name built from a string literal of the crates (as it is, as a prefix, as a suffix); whatever the name, the two
+    // must end up disjoint or the resolution must fail
+    if c04 {
+        let names = crate::common::magic_names();
+        let plain = |name: &str, many: bool| Q { name: name.into(), addr: Some("A"), min: Some(vec![("L", 1)]), refs: vec![], many, collateral: false };
+        for (k, lit) in names.iter().enumerate() {
+            let lit = lit.trim_matches('_');
+            if lit == "collateral" || lit.is_empty() {
+                continue;
+            }
+            for (v, name) in [lit.to_string(), format!("{lit}_x"), format!("x_{lit}")].into_iter().enumerate() {
+                // one UTxO (the second block must fail) or two (it must get the other one)
+                let size = 1 + (k + v) % 2;
+                let st: Vec<U> = (0..size).map(|i| U { txid: (i + 1) as u8, index: 0, addr: "A", assets: vec![("L", 5)] }).collect();
+                let other = if name.as_str() < "m" { "zz" } else { "aa" };
+                emit(out, "named-blocks", &st, &[plain(&name, false), plain(other, (k + v) % 3 == 0)], true);
+            }
+        }
+    }
     // a block whose target needs padding from loose matches (token + lovelace, several UTxOs), next to
     // blocks that take the plain-lovelace UTxOs of the same party — in both name orders
     for _ in 0..rounds / 3 {
